@@ -190,7 +190,7 @@ pub fn run(prop: &str, tier: &str, replay: Option<&str>) -> i32 {
         let addrs6: [[u8; 16]; 3] = [[0x20, 0x01, 0x0d, 0xb8, 1, 2, 3, 4, 5, 6, 7, 8, 9, 10, 11, 12], [0xff; 16], [0; 16]];
         let mut cidrs: Vec<(CidrSpec, bool)> = Vec::new();
         for p in 0..=255u8 {
-            for ctor in [CidrCtor::AddrPrefix, CidrCtor::VxPrefix, CidrCtor::FromStr, CidrCtor::Raw] {
+            for ctor in [CidrCtor::AddrPrefix, CidrCtor::VxPrefix, CidrCtor::FromStr, CidrCtor::Raw, CidrCtor::RawHoles] {
                 for a in &addrs4 {
                     for ex in [false, true] {
                         cidrs.push((CidrSpec { addr: a.to_vec(), prefix: p, ctor }, ex));
